@@ -72,7 +72,13 @@ def check(run, model, tier):
                 tfmts = [const_str(a)]
         if not tfmts:
             raise AnalysisError('trace writer: strftime format is not a literal')
-        if not args or args[0] is not sc:
+        first = args[0] if args else None
+        if isinstance(first, ast.Name):
+            # a local bound once to the rendered timestamp
+            ds_ = [d_ for d_ in local_defs(writer.node).get(first.id, []) if isinstance(d_, ast.AST)]
+            if len(ds_) == 1:
+                first = ds_[0]
+        if first is not sc:
             raise AnalysisError('trace writer: the timestamp is not the first field of the layout')
     elif not st_calls and args:
         # the datetime object formatted directly: str(datetime) == isoformat(' '), which drops the fraction when microsecond == 0
